@@ -402,8 +402,8 @@ TypeNameClash(inp, m, d) ==
   LET fnames == (IF OwnsVptr(inp, m, d) THEN <<"vftable">> ELSE <<>>)
                 \o SelectSeq(NamesOf(d.fields), LAMBDA n : n # "_")
       vnames == NamesOf(d.vft.funcs)
-      bi == LastIdx(m.impls, LAMBDA b : b.name = d.name)
-      ifuncs == IF bi = 0 THEN <<>> ELSE m.impls[bi].funcs
+      mine == SelectSeq(m.impls, LAMBDA b : b.name = d.name)
+      ifuncs == Flatten([k \in DOMAIN mine |-> mine[k].funcs])    \* the functions of every impl block of the type
       accessors == (IF HasVftD(inp, Join(m.path, d.name), 8) THEN <<"vftable">> ELSE <<>>)
                    \o (IF IsSome(d.singleton) THEN <<"get">> ELSE <<>>)
   IN \/ HasDupNames(fnames)
